@@ -249,6 +249,7 @@ def run(fx, tier):
     v.expect_min('R-CGRAPH', 40, 'paths × rules')
     v.expect_min('R-FLOW', 40, 'id/message provenance sites')
     v.expect_min('R-DOM', 10, 'replies/session structure × TUs')
+    receive_channel_rule(fx, v, 'C04')
     return v.finish(
         'The receiver-side exchange is a finite continuation graph; the clauses are decided as edge properties of that '
         'graph (which state may store / build which acknowledgement, on which error-code edge) and def-use provenance of '
@@ -379,3 +380,66 @@ def reconnect_discards_buffer_rule(fx, v, prop='C04'):
                     where='%s:%s' % (f.path_file(), l))
     if n_reset == 0 and not v.violations:
         raise AnalysisBroken('assemble_op::on_read: no re-read on the reconnect edge found')
+
+
+def receive_channel_rule(fx, v, prop='C04'):
+    """a decoded PUBLISH reaches the application through the receive channel; channel_store() is a try_send whose result nobody
+    looks at, so a message is delivered only if the channel can always take it: EVERY constructor of client_service - the
+    public one and the private copy used by dup() for a re-run client - builds _rec_channel with an unbounded capacity, and the
+    sibling constructors agree on how every freshly built member is built (arguments other than plain variables)."""
+    from flow import canon
+    v.rule('R-PAIR', 'sibling constructors of client_service build every fresh member alike; the receive channel is unbounded in all of them')
+    n = 0
+    for tu in sorted({f.tu for f in fx.fns}):
+        ctors = {}
+        for f in fx.fns:
+            if f.tu == tu and f.d.get('ctor') and f.cls == 'client_service' and f.d.get('inits'):
+                ctors.setdefault(f.d.get('f'), f)
+        if not ctors:
+            continue
+
+        def shape(init):
+            """class + the arguments that are not plain variables (parameters, members) or defaulted"""
+            c = core(init)
+            if not isinstance(c, dict) or c.get('k') != 'ctor':
+                return None
+            args = []
+            for a_ in c.get('args', []):
+                ca = core(a_)
+                if isinstance(a_, dict) and a_.get('k') == 'defarg':
+                    continue
+                if isinstance(ca, dict) and ca.get('k') in ('ref', 'mem', 'this'):
+                    args.append('var')
+                else:
+                    args.append(repr(canon(ca)))
+            return (c.get('q') or c.get('cls'), tuple(args))
+        per = {}
+        for where_, f in ctors.items():
+            v.saw(f)
+            for it in f.d['inits']:
+                fld = it.get('field')
+                if fld:
+                    per.setdefault(fld, {})[where_] = shape(it.get('init'))
+            # the receive channel is unbounded
+            rc = [it for it in f.d['inits'] if it.get('field') == '_rec_channel']
+            ok = False
+            if rc:
+                c = core(rc[0].get('init'))
+                args = [a_ for a_ in (c.get('args', []) if isinstance(c, dict) else []) if not (isinstance(a_, dict) and a_.get('k') == 'defarg')]
+                if len(args) >= 2:
+                    cap = core(args[1])
+                    ok = contains(cap, lambda m: m.get('k') == 'call' and callee_name(m) == 'max' and 'numeric_limits' in (m.get('fn', {}).get('q') or '')) \
+                        or (isinstance(cap, dict) and isinstance(cap.get('c'), int) and cap['c'] >= (1 << 31))
+            n += 1
+            v.check(ok, 'R-PAIR', 'client_service::client_service@%s [%s]:_rec_channel' % (where_.split(':')[-1], tu),
+                    'the receive channel is built with an unbounded capacity (channel_store never refuses a message)',
+                    key=prop + ':R-PAIR:client_service:rec-channel-unbounded', where=where_)
+        for fld, m in sorted(per.items()):
+            shapes = {s_ for s_ in m.values() if s_ is not None}
+            if len(m) < 2 or len([s_ for s_ in m.values() if s_ is not None]) < 2:
+                continue                      # copied from the other object in one of them: nothing to compare
+            v.check(len(shapes) == 1, 'R-PAIR', 'client_service constructors [%s]:%s' % (tu, fld),
+                    'freshly built member is built alike in the sibling constructors (%s)' % (sorted(shapes) if len(shapes) > 1 else 'same shape'),
+                    key=prop + ':R-PAIR:client_service:sibling-ctor:%s' % fld, where=next(iter(m)))
+    if n < 2 and not v.violations:
+        raise AnalysisBroken('client_service constructors not found')
